@@ -1,4 +1,4 @@
-import LinfaSpec.Proofs.TreeSweep
+import LinfaSpec.Proofs.TreeRoute
 
 /-!
 # C14 — decision trees are well-formed, honour their limits and predict leaf majorities
@@ -281,12 +281,13 @@ theorem leaf_predicts_a_mode (P : Params α β) (D : Data α β) (ord : List Nat
 end full
 
 section importance
-variable {α : Type} [Field α] [LinearOrder α] [IsStrictOrderedRing α]
+variable {α β : Type} [Field α] [LinearOrder α] [IsStrictOrderedRing α]
+variable [Field β] [LinearOrder β] [IsStrictOrderedRing β]
 
 /-- **feature importances are non-negative and sum to one whenever the tree has a split**
-(features and weights in the same ordered field, `min_impurity_decrease > 0` — the guard of
-`ParamGuard`) -/
-theorem importances_nonneg_sum_one (P : Params α α) (D : Data α α) (ord : List Nat → List Nat) (p : Nat)
+(features in one ordered field, weights and impurities in another — the `F` / `f32` mix of the code —
+with any `cast` between them; `min_impurity_decrease > 0` is the guard of `ParamGuard`) -/
+theorem importances_nonneg_sum_one (P : Params α β) (D : Data α β) (ord : List Nat → List Nat) (p : Nat)
     (t : Tree.Tree α) (g : Guards P D) (hmd : 0 < P.minDec) (h : fit P D ord p = some t)
     (hsplit : ∃ f s dec pr d l r, t = Tree.Tree.node f s dec pr d l r) :
     (∀ x ∈ importances t p, 0 ≤ x) ∧ sumS (importances t p) = 1 := by
@@ -303,6 +304,92 @@ theorem importances_nonneg_sum_one (P : Params α α) (D : Data α α) (ord : Li
   obtain ⟨m', h1, h2⟩ := forallSplits_allNodes D _ t _ hno hdec n hn f s dec pr d l r he
   exact ⟨not_lt.mp h1, h2⟩
 
+/-- **`fit` returns a tree** for every non-empty labelled dataset under the guards: no `assert!` or
+`unwrap` of `TreeNode::fit` fires and the recursion budget of the model (`fitFuel`) is never
+exhausted — so the hypothesis `fit … = some t` of every other theorem is satisfied, none of them is
+vacuous.  `0 < min_impurity_decrease` is what `ParamGuard` checks; `hord`: the hash map's iteration
+order lists exactly its keys. -/
+theorem fit_returns (P : Params α β) (D : Data α β) (ord : List Nat → List Nat)
+    (hord : ∀ l c, c ∈ ord l ↔ c ∈ l) (p : Nat) (g : Guards P D) (hmd : 0 < P.minDec) (hn : 0 < D.n) :
+    ∃ t, fit P D ord p = some t := by
+  have hrows : rowsOf (allMask D) ≠ [] := by
+    have : 0 ∈ rowsOf (allMask D) := (mem_rowsOf_allMask D 0).mpr hn
+    exact List.ne_nil_of_mem this
+  have hlenr : (rowsOf (allMask D)).length ≤ D.n := by
+    unfold rowsOf
+    refine le_trans (List.length_filter_le _ _) ?_
+    simp [allMask]
+  obtain ⟨u, hu⟩ := fitNode_returns P D ord p g.eps_pos g.minLeaf_pos hmd g.classes g.lord hord
+    (fitFuel P D) (allMask D) 0 (length_allMask D) hrows (by unfold fitFuel; omega)
+  exact ⟨(prune u).1, by unfold fit; rw [hu]⟩
+
+/-- **every training row is predicted by the leaf it was assigned to while fitting, and that
+prediction is a weighted most frequent label of the training rows of that leaf**: for the fitted,
+pruned tree `t` and a training row `i`, the leaf `make_prediction` ends in has the row set
+`reachedMask …` (the training rows taking the same turns under the fit-time rule `value <= split`);
+row `i` is one of them, and `predict` returns a mode of them that occurs among them -/
+theorem training_row_predicted_by_own_leaf (P : Params α β) (D : Data α β) (ord : List Nat → List Nat)
+    (hord : ∀ l c, c ∈ ord l ↔ c ∈ l) (p : Nat) (t : Tree.Tree α) (g : Guards P D)
+    (hw : ∀ i, 0 ≤ D.w i) (h : fit P D ord p = some t) (i : Nat) (hi : i < D.n) :
+    i ∈ rowsOf (reachedMask D (D.row i) (allMask D) t) ∧
+    IsMode D (reachedMask D (D.row i) (allMask D) t) (predict (D.row i) t) :=
+  ⟨train_row_in_reached D i t _ ((mem_rowsOf_allMask D i).mpr hi),
+   forallLeaves_predict D (IsMode D) (D.row i) t _ (leaf_predicts_a_mode P D ord hord p t g hw h)⟩
+
+/-- **only labels seen in training are ever predicted**: for every row whatsoever (training row or
+not) `predict` returns the label of some training row — one that reaches the same leaf -/
+theorem predict_only_seen_labels (P : Params α β) (D : Data α β) (ord : List Nat → List Nat)
+    (hord : ∀ l c, c ∈ ord l ↔ c ∈ l) (p : Nat) (t : Tree.Tree α) (g : Guards P D)
+    (hw : ∀ i, 0 ≤ D.w i) (h : fit P D ord p = some t) (row : List α) :
+    ∃ j, j < D.n ∧ D.y j = predict row t := by
+  obtain ⟨⟨j, hj, hy⟩, _⟩ :=
+    forallLeaves_predict D (IsMode D) row t _ (leaf_predicts_a_mode P D ord hord p t g hw h)
+  exact ⟨j, (mem_rowsOf_allMask D j).mp (reached_sub D row t _ j hj), hy⟩
+
+/-- **`features()` lists every feature index used by a split node exactly once, all of them
+columns of the data** (in the order the level-order traversal meets them first: `featuresOf` is
+the push-if-unseen loop over `iter_nodes()`) -/
+theorem features_spec (P : Params α β) (D : Data α β) (ord : List Nat → List Nat) (p : Nat)
+    (t : Tree.Tree α) (g : Guards P D) (h : fit P D ord p = some t) :
+    (featuresOf t).Nodup ∧
+    (∀ f, f ∈ featuresOf t ↔ ∃ n ∈ allNodes t, ∃ s dec pr d l r, n = Tree.Tree.node f s dec pr d l r) ∧
+    (∀ f ∈ featuresOf t, f < p) := by
+  have hmem : ∀ f, f ∈ featuresOf t ↔
+      ∃ n ∈ allNodes t, ∃ s dec pr d l r, n = Tree.Tree.node f s dec pr d l r := by
+    intro f
+    unfold featuresOf
+    rw [mem_firstOcc, List.mem_map]
+    constructor
+    · rintro ⟨⟨f', dec⟩, hfd, rfl⟩
+      unfold splitDecs at hfd
+      rw [List.mem_filterMap] at hfd
+      obtain ⟨n, hn, hsome⟩ := hfd
+      have hn' := (iterNodes_perm t).mem_iff.mp hn
+      cases n with
+      | leaf _ _ => simp at hsome
+      | half _ _ _ _ _ _ _ => simp at hsome
+      | node f0 s0 dec0 pr0 d0 l0 r0 =>
+        simp only [Option.some.injEq, Prod.mk.injEq] at hsome
+        obtain ⟨rfl, rfl⟩ := hsome
+        exact ⟨_, hn', s0, dec0, pr0, d0, l0, r0, rfl⟩
+    · rintro ⟨n, hn, s0, dec0, pr0, d0, l0, r0, rfl⟩
+      refine ⟨(f, dec0), ?_, rfl⟩
+      unfold splitDecs
+      rw [List.mem_filterMap]
+      exact ⟨_, (iterNodes_perm _).mem_iff.mpr hn, rfl⟩
+  refine ⟨firstOcc_nodup _, hmem, fun f hf => ?_⟩
+  obtain ⟨n, hn, s0, dec0, pr0, d0, l0, r0, he⟩ := (hmem f).mp hf
+  have hno := split_has_two_children P D ord p t g h
+  have hdec : ForallSplits D (fun m f s dec => f < p) (allMask D) t := by
+    obtain ⟨u, hu, rfl⟩ := fit_inv P D ord p t h
+    refine prune_forallSplits D _ _ _ (fitNode_forallSplitsI P D ord _ (fun m => m.length = D.n)
+      (fun m f s hm => by rw [length_leftMask]; exact hm) (fun m f s hm => by rw [length_rightMask]; exact hm)
+      _ ?_ _ _ _ _ (length_allMask D) hu)
+    intro mask depth b hlen _ hb hd _ _
+    exact (candidates_spec P D mask p g.eps_pos g.classes g.lord hlen b (pickBest_mem _ _ hb)).feat_lt
+  obtain ⟨m', h1⟩ := forallSplits_allNodes D _ t _ hno hdec n hn f s0 dec0 pr0 d0 l0 r0 he
+  exact h1
+
 end importance
 
 section accessors
@@ -315,6 +402,12 @@ variable [Add β] [Sub β] [Mul β] [Div β] [Neg β] [LT β] [DecidableLT β]
 /-- **`iter_nodes()` enumerates every node of the tree exactly once** (level order is a
 permutation of the preorder node list) -/
 theorem iter_nodes_enumerates (t : Tree.Tree α) : (iterNodes t).Perm (allNodes t) := iterNodes_perm t
+
+/-- **`iter_nodes()` yields the nodes in level order**: the root, then the nodes of depth 1 from left
+to right, then those of depth 2, … (`levels`: the current level followed by the level made of its
+children); this is the order, `iter_nodes_enumerates` only the set -/
+theorem iter_nodes_level_order (t : Tree.Tree α) : iterNodes t = levels (t.height + 1) [t] :=
+  iterNodes_eq_levels t
 
 /-- **`num_leaves()` is the number of leaf-flagged nodes** -/
 theorem num_leaves_counts_leaves (t : Tree.Tree α) : numLeaves t = leafCount t := numLeaves_eq t
@@ -362,6 +455,15 @@ example : ∀ i, 0 ≤ exDQ.w i := by
   rcases i with _ | _ | _ | _ | i <;> simp
 example : 0 < exPQ.minDec := by norm_num [exPQ]
 example : importances exTQ 2 = [1, 0] := by decide +kernel
-example : numLeaves exTQ = 2 ∧ maxDepthOf exTQ = 1 ∧ featuresOf exTQ 2 = [0] := by decide +kernel
+/-- `iter_nodes_level_order` on the two-level tree `exT`: root, its two children, the two grandchildren -/
+example : levels (exT.height + 1) [exT] =
+    [exT, .leaf 0 1, .node 0 3 1 1 1 (.leaf 0 2) (.leaf 1 2), .leaf 0 2, .leaf 1 2] := by decide
+example : numLeaves exTQ = 2 ∧ maxDepthOf exTQ = 1 ∧ featuresOf exTQ = [0] := by decide +kernel
+/-- hypotheses of `fit_returns`, `training_row_predicted_by_own_leaf`, `predict_only_seen_labels`,
+`features_spec`: the dataset is non-empty, `id` lists the keys, row 2 is a training row; its leaf holds
+rows 2 and 3 and predicts their mode 1 -/
+example : 0 < exDQ.n ∧ (∀ (l : List Nat) c, c ∈ id l ↔ c ∈ l) ∧ (2 < exDQ.n) := ⟨by decide, fun _ _ => Iff.rfl, by decide⟩
+example : rowsOf (reachedMask exDQ (exDQ.row 2) (allMask exDQ) exTQ) = [2, 3] ∧ predict (exDQ.row 2) exTQ = 1 := by
+  decide +kernel
 
 end LinfaSpec.Props.C14
